@@ -1,7 +1,10 @@
 (* drv_bep44.ml — handlers of the `bep44` engine (C12 store side, C13).
    State between lines: the ed25519 verdict table printed by the harness, the sequential model
    state, the concurrent model state.  All decisions are taken by extracted functions of
-   RunBep44.v / Bep44.v; this file only parses and prints. *)
+   RunBep44.v; this file only parses and prints.
+   Only the rb_* functions and the basic extracted types (list, option, pairs, bool, n, z, byte) are
+   used: no record field, constructor or type name of Bep44.v appears here, so the flat extraction may
+   rename those freely. *)
 module BZ = Z   (* Zarith, before Model's extracted module Z shadows it *)
 open Model
 open Driver
@@ -9,7 +12,7 @@ open Driver
 (* ---------- ed25519 verdict table: (key, message, signature) -> verdict ---------- *)
 let edtab : (string, bool) Hashtbl.t = Hashtbl.create 1024
 let edmiss = ref false
-let edv (k : byte list) (m : byte list) (s : byte list) : bool =
+let edv k m s =
   let key = hex_of_bytes k ^ ":" ^ hex_of_bytes m ^ ":" ^ hex_of_bytes s in
   match Hashtbl.find_opt edtab key with
   | Some b -> b
@@ -21,58 +24,47 @@ let guarded (f : unit -> string) : string =
   if !edmiss then "REJECT edtable-miss" else r
 
 (* ---------- printing ---------- *)
-let str_of_code = function None -> "ok" | Some c -> dec_of_z c
-let str_of_putres = function POk -> "ok" | PErr c -> dec_of_z c | POther -> "other"
+let int_of_zz x = BZ.to_int (big_of_z x)
+let str_of_code c = match int_of_zz c with 0 -> "ok" | -1 -> "other" | -2 -> "?" | n -> string_of_int n
 let minute = BZ.of_string "60000000000"
-let age_min (clock : z) (created : z) : string =
+let age_min clock created =
   BZ.to_string (BZ.fdiv (BZ.sub (big_of_z clock) (big_of_z created)) minute)
-let str_of_item (clock : z) (i : item) : string =
-  Printf.sprintf "%s:%s:%s:%s:%s:%s:%s" (dec_of_z i.it_seq) (dec_of_z i.it_cas) (hex_of_bytes i.it_bv)
-    (hex_of_bytes i.it_k) (hex_of_bytes i.it_salt) (hex_of_bytes i.it_sig) (age_min clock i.it_created)
-let dump (clock : z) (s : (byte list * item) list) : string =
+let str_of_item clock i =
+  Printf.sprintf "%s:%s:%s:%s:%s:%s:%s" (dec_of_z (rb_it_seq i)) (dec_of_z (rb_it_cas i)) (hex_of_bytes (rb_it_bv i))
+    (hex_of_bytes (rb_it_k i)) (hex_of_bytes (rb_it_salt i)) (hex_of_bytes (rb_it_sig i)) (age_min clock (rb_it_created i))
+let dump clock s =
   let l = List.map (fun (t, i) -> hex_of_bytes t ^ ":" ^ str_of_item clock i) s in
   let l = List.sort compare l in
   String.concat " " (string_of_int (List.length l) :: l)
-let dump_seqs (s : (byte list * item) list) : string =
-  let l = List.map (fun (t, i) -> hex_of_bytes t ^ ":" ^ dec_of_z i.it_seq) s in
+let dump_seqs s =
+  let l = List.map (fun (t, i) -> hex_of_bytes t ^ ":" ^ dec_of_z (rb_it_seq i)) s in
   let l = List.sort compare l in
   String.concat " " (string_of_int (List.length l) :: l)
 
-let mk_item bv k salt sg cas seq : item =
-  { it_bv = bytes_of_hex bv; it_k = bytes_of_hex k; it_salt = bytes_of_hex salt; it_sig = bytes_of_hex sg;
-    it_cas = z_of_dec cas; it_seq = z_of_dec seq; it_created = Z0 }
-
-(* ---------- state ---------- *)
-let exp_ns : z ref = ref Z0
-let sst : sstate ref = ref { s_clock = Z0; s_store = [] }
-let cths : thread list ref = ref []
-let cst : cstate ref = ref { c_g = { g_store = []; g_lock = None; g_pcs = [] }; c_wait = [] }
-
-let step (e : event) : obs =
-  let (st', o) = rb_seq_step edv !exp_ns !sst e in
-  sst := st'; o
-
-let str_of_found clock = function
-  | None -> "notfound"
-  | Some i -> "found " ^ str_of_item clock i
+let mk_item bv k salt sg cas seq =
+  rb_mk_item (bytes_of_hex bv) (bytes_of_hex k) (bytes_of_hex salt) (bytes_of_hex sg) (z_of_dec cas) (z_of_dec seq) Z0
 
 let opt_z s = if s = "-" then None else Some (z_of_dec s)
+let str_opt_z = function None -> "-" | Some q -> dec_of_z q
+
+(* ---------- state ---------- *)
+let exp_ns = ref Z0
+let sst = ref rb_s0
+let cths = ref []
+let cst = ref (rb_cinit [] [])
+
+let sdump () = dump (rb_sclock !sst) (rb_sstore !sst)
 
 (* thread status as the harness can see it *)
-let status (c : cstate) (ths : thread list) (tid : int) : string =
-  let n = nat_of_int tid in
-  match nth_error c.c_g.g_pcs n with
-  | None -> "?"
-  | Some PcInit -> if mem_nat n c.c_wait then "B" else "N"
-  | Some PcPutGet | Some PcGetGet -> "yG"
-  | Some PcPutPut -> "yP"
-  | Some PcGetDel -> "yD"
-  | Some (PcUnlock _) -> "U"
-  | Some (PcDone (RPut r)) -> "F:" ^ str_of_putres r
-  | Some (PcDone (RGet None)) -> "F:notfound"
-  | Some (PcDone (RGet (Some i))) -> "F:found:" ^ dec_of_z i.it_seq
-let statuses (c : cstate) (ths : thread list) : string =
-  String.concat " " (List.mapi (fun i _ -> status c ths i) ths)
+let status c tid =
+  let (k, p) = rb_cstatus c (nat_of_int tid) in
+  match int_of_zz k with
+  | 0 -> "N" | 1 -> "B" | 2 -> "yG" | 3 -> "yP" | 4 -> "yD" | 5 -> "U"
+  | 6 -> "F:" ^ str_of_code p
+  | 7 -> "F:notfound"
+  | 8 -> "F:found:" ^ dec_of_z p
+  | _ -> "?"
+let statuses c ths = String.concat " " (List.mapi (fun i _ -> status c i) ths)
 
 let () =
   reg "edtable" (fun a _ -> match a with
@@ -94,7 +86,7 @@ let () =
       let i = mk_item bv k salt "-" "0" "0" in
       let t = hex_of_bytes (rb_target i) in
       (* Item.Target, Put.Target, and MakeMutableTarget for mutable items *)
-      if is_mutable i then Printf.sprintf "%s %s %s" t t (hex_of_bytes (rb_mtarget i.it_k i.it_salt))
+      if rb_is_mutable i then Printf.sprintf "%s %s %s" t t (hex_of_bytes (rb_mtarget (rb_it_k i) (rb_it_salt i)))
       else Printf.sprintf "%s %s -" t t
     | _ -> "?");
   reg "b44checkin" (fun a _ -> match a with
@@ -103,64 +95,64 @@ let () =
     | _ -> "?");
   (* ---- sequential histories ---- *)
   reg "b44begin" (fun a _ -> match a with
-    | [_case; e] -> exp_ns := z_of_dec e; sst := { s_clock = Z0; s_store = [] }; "ok"
+    | [_case; e] -> exp_ns := z_of_dec e; sst := rb_s0; "ok"
     | _ -> "?");
   reg "b44end" (fun _ _ -> "ok");
   reg "b44age" (fun a _ -> match a with
-    | [d] -> ignore (step (EAdvance (z_of_dec d))); "ok"
+    | [d] -> sst := rb_sadvance edv !exp_ns !sst (z_of_dec d); "ok"
     | _ -> "?");
   reg "b44put" (fun a _ -> match a with
     | [bv; k; salt; sg; cas; seq] -> guarded (fun () ->
-        match step (EPut (mk_item bv k salt sg cas seq)) with
-        | OPut r -> Printf.sprintf "%s | %s" (str_of_putres r) (dump !sst.s_clock !sst.s_store)
-        | _ -> "?")
+        let (st', c) = rb_sput edv !exp_ns !sst (mk_item bv k salt sg cas seq) in
+        sst := st';
+        Printf.sprintf "%s | %s" (str_of_code c) (sdump ()))
     | _ -> "?");
   reg "b44get" (fun a _ -> match a with
-    | [t] -> (match step (EGet (bytes_of_hex t)) with
-        | OGet r -> Printf.sprintf "%s | %s" (str_of_found !sst.s_clock r) (dump !sst.s_clock !sst.s_store)
-        | _ -> "?")
+    | [t] ->
+      let (st', r) = rb_sget edv !exp_ns !sst (bytes_of_hex t) in
+      sst := st';
+      let f = (match r with None -> "notfound" | Some i -> "found " ^ str_of_item (rb_sclock st') i) in
+      Printf.sprintf "%s | %s" f (sdump ())
     | _ -> "?");
   (* ---- server level: inbound put / get (token already valid), Server.Put ---- *)
   reg "b44wput" (fun a _ -> match a with
     | [bv; k; salt; sg; cas; seq] -> guarded (fun () ->
-        let args = { pa_bv = bytes_of_hex bv; pa_k = bytes_of_hex k; pa_salt = bytes_of_hex salt;
-                     pa_sig = bytes_of_hex sg; pa_cas = z_of_dec cas; pa_seq = opt_z seq } in
-        match step (EWirePut args) with
-        | OWirePut SReply -> Printf.sprintf "reply | %s" (dump !sst.s_clock !sst.s_store)
-        | OWirePut (SError c) -> Printf.sprintf "error %s | %s" (dec_of_z c) (dump !sst.s_clock !sst.s_store)
-        | _ -> "?")
+        let (st', c) = rb_swput edv !exp_ns !sst (bytes_of_hex bv) (bytes_of_hex k) (bytes_of_hex salt)
+            (bytes_of_hex sg) (z_of_dec cas) (opt_z seq) in
+        sst := st';
+        if int_of_zz c = 0 then Printf.sprintf "reply | %s" (sdump ())
+        else Printf.sprintf "error %s | %s" (str_of_code c) (sdump ()))
     | _ -> "?");
   reg "b44wget" (fun a _ -> match a with
-    | [t; sq] -> (match step (EWireGet (bytes_of_hex t, opt_z sq)) with
-        | OWireGet g ->
-          let sq = (match g.gr_seq with None -> "-" | Some q -> dec_of_z q) in
-          let v = (match g.gr_val with
-              | None -> "- - -"
-              | Some ((bv, k), sg) -> Printf.sprintf "%s %s %s" (hex_of_bytes bv) (hex_of_bytes k) (hex_of_bytes sg)) in
-          Printf.sprintf "seq=%s %s | %s" sq v (dump !sst.s_clock !sst.s_store)
-        | _ -> "?")
+    | [t; sq] ->
+      let (st', (rs, rv)) = rb_swget edv !exp_ns !sst (bytes_of_hex t) (opt_z sq) in
+      sst := st';
+      let v = (match rv with
+          | None -> "- - -"
+          | Some ((bv, k), sg) -> Printf.sprintf "%s %s %s" (hex_of_bytes bv) (hex_of_bytes k) (hex_of_bytes sg)) in
+      Printf.sprintf "seq=%s %s | %s" (str_opt_z rs) v (sdump ())
     | _ -> "?");
   reg "b44lput" (fun a _ -> match a with
     | [bv; k; salt; sg; cas; seq] -> guarded (fun () ->
-        let p = { pi_bv = bytes_of_hex bv; pi_k = (if k = "-" then None else Some (bytes_of_hex k));
-                  pi_salt = bytes_of_hex salt; pi_sig = bytes_of_hex sg; pi_cas = z_of_dec cas; pi_seq = z_of_dec seq } in
-        match step (ELocalPut p) with
-        | OLocal (LErr r) -> Printf.sprintf "err %s | %s" (str_of_putres r) (dump !sst.s_clock !sst.s_store)
-        | OLocal (LQuery q) ->
-          Printf.sprintf "query %s %s %s %s %s %s | %s" (hex_of_bytes q.pa_bv) (hex_of_bytes q.pa_k)
-            (hex_of_bytes q.pa_salt) (hex_of_bytes q.pa_sig) (dec_of_z q.pa_cas)
-            (match q.pa_seq with None -> "-" | Some s -> dec_of_z s) (dump !sst.s_clock !sst.s_store)
-        | _ -> "?")
+        let ko = if k = "-" then None else Some (bytes_of_hex k) in
+        let (st', (c, q)) = rb_slput edv !exp_ns !sst (bytes_of_hex bv) ko (bytes_of_hex salt) (bytes_of_hex sg)
+            (z_of_dec cas) (z_of_dec seq) in
+        sst := st';
+        match q with
+        | Some (((((qbv, qk), qsalt), qsig), qcas), qseq) ->
+          Printf.sprintf "query %s %s %s %s %s %s | %s" (hex_of_bytes qbv) (hex_of_bytes qk) (hex_of_bytes qsalt)
+            (hex_of_bytes qsig) (dec_of_z qcas) (str_opt_z qseq) (sdump ())
+        | None -> Printf.sprintf "err %s | %s" (str_of_code c) (sdump ()))
     | _ -> "?");
   (* ---- concurrent: threads over the store left by the sequential lines ---- *)
   reg "b44cthreads" (fun a _ -> match a with
     | _n :: specs ->
-      let now = !sst.s_clock in
+      let now = rb_sclock !sst in
       cths := List.map (fun s -> match split_on ':' s with
-          | ["P"; bv; k; salt; sg; cas; seq] -> { th_op = TPut (mk_item bv k salt sg cas seq); th_now = now }
-          | ["G"; t] -> { th_op = TGet (bytes_of_hex t); th_now = now }
+          | ["P"; bv; k; salt; sg; cas; seq] -> rb_thread_put (mk_item bv k salt sg cas seq) now
+          | ["G"; t] -> rb_thread_get (bytes_of_hex t) now
           | _ -> failwith ("thread spec " ^ s)) specs;
-      cst := rb_cinit !cths !sst.s_store; "ok"
+      cst := rb_cinit !cths (rb_sstore !sst); "ok"
     | _ -> "?");
   reg "b44cstep" (fun a o -> match a with
     | [tid] -> guarded (fun () ->
@@ -169,13 +161,13 @@ let () =
         let rec upto = function [] -> [] | "|" :: _ -> [] | x :: r -> x :: upto r in
         let obs = upto o in
         let adv = List.concat (List.mapi (fun i s ->
-            if mem_nat (nat_of_int i) !cst.c_wait && s <> "B" then [(i, s)] else []) obs) in
+            if rb_cwaiting !cst (nat_of_int i) && s <> "B" then [(i, s)] else []) obs) in
         let fin, run = List.partition (fun (_, s) -> String.length s > 0 && s.[0] = 'F') adv in
         let advanced = List.map (fun (i, _) -> nat_of_int i) (fin @ run) in
         cst := rb_caction edv !exp_ns !cths !cst (nat_of_int tid) advanced;
         if rb_cstuck !cst then "REJECT blocked-while-lock-free " ^ statuses !cst !cths
-        else Printf.sprintf "%s | %s" (statuses !cst !cths) (dump_seqs !cst.c_g.g_store))
+        else Printf.sprintf "%s | %s" (statuses !cst !cths) (dump_seqs (rb_cstore !cst)))
     | _ -> "?");
   reg "b44cend" (fun _ _ ->
-    sst := { s_clock = !sst.s_clock; s_store = !cst.c_g.g_store };
-    Printf.sprintf "%s | %s" (statuses !cst !cths) (dump !sst.s_clock !sst.s_store))
+    sst := rb_swith_store !sst (rb_cstore !cst);
+    Printf.sprintf "%s | %s" (statuses !cst !cths) (sdump ()))
